@@ -48,6 +48,18 @@ CLAIMED = {
          "Static decision for every schedule that the lock-order graph is acyclic and follows renameMu > opMu > fidMu/openMu > childMu > leaf locks, that same-class nesting happens only at reviewed sites that cannot involve the same instance, that renameMu is never re-acquired, that nothing blocks while a lock is held, that every lock taken is released on every exit, and that every access to the shared session state (fid and tag tables, path-tree maps, allocator state, shutdown flag, atomic fields) holds the lock the source assigns to it. Right level: deadlocks and data races are exactly what lock-order and lockset analyses decide for all interleavings at once; the race detector only sees the schedules a test happens to run.",
          "Liveness under a real scheduler (fairness, wake-ups) and the isolation-of-results clause are not decided beyond the necessary condition that no other cross-connection mutable state exists. Lock instances are compared structurally; childMu is judged at class granularity. Assumes the property's workload of at most one outstanding request per fid for pendingXattr and the open state.",
          "DESIGN.md section 4 C16, Appendix D"),
+ "C11": ("dataflow invariants of the chunk loop from path facts at each callback call and loop exit (window bounds, lock-step accumulators, exit classification), who-may-use rule for the single-message primitives, static evaluation of the chunk size's overhead from the codec layouts",
+         "Static decision of the structural necessary conditions of chunked I/O: ReadAt/WriteAt delegate to chunk with the negotiated payload size and the single-message primitives (used nowhere else); each chunk's window starts at the running total and is cut at len(p) or total+chunkSize on exactly the right branch; total and offset advance together by the count that call returned before any exit test; the loop ends on the first error, a short chunk or an exhausted buffer, never issuing an operation once the buffer is exhausted; the primitives send the right count/offset, copy a non-aliased payload and synthesise io.EOF under exactly len(Data)==0 && len(p)>0; the chunk size leaves room for header and fixed parts. Right level: explicitly partial — the arithmetic result (sum of chunks = len(p) for every size) is a runtime quantity that is not computed; what is decided are loop invariants every correct implementation must satisfy.",
+         "Does not compute sums of chunk sizes or behaviour against concrete short-writing backends; these follow from r2-r4 for a reader but are not decided by the checker.",
+         "DESIGN.md section 4 C11"),
+ "C12": ("return-type rule and exit classification by path facts in tversion.handle, clamp-shape (reaching definitions) rules for msize and version, writer/reader table agreement between versionString's format and parseVersion's literals, dataflow from Rversion fields into the client's stores",
+         "Static decision that a Tversion is always answered with an Rversion, 'unknown'/0 exactly on the msize==0 / unparsable / non-.L paths and min(requested, 4 MiB) / min(N, 7) in versionString's canonical spelling otherwise (with the same clamped values stored in the connection and sizing its buffers), that versionString and parseVersion agree segment by segment, that NewClient adopts the reply's version and msize for everything it sends afterwards and returns an error rather than a client when the reply is not a 9P2000.L version. Right level: the quantifier over msize values and version strings is absorbed by the comparisons in the code; what remains is which value flows where on which path.",
+         "Trusts strconv.ParseUint/strings.Split semantics for the string space.",
+         "DESIGN.md section 4 C12"),
+ "C13": ("bound analysis: the length of every payload handed out by tread/treaddir is a variable clamped (reaching definitions) by a value derived from the negotiated msize minus an overhead statically evaluated from the codec layouts; static evaluation of registry.largestFixedSize from the 65 layouts; store-order and underflow-guard rules for the client's payload size",
+         "Static decision that the number of bytes an Rread/Rreaddir may carry is bounded on every path by (negotiated msize − 11 or more), 11 = headerLength + FixedSize being computed from the codec rather than assumed, that no other reply carries an out-of-band payload, and that the client's payload size is roundDown(adopted msize − S, 512) with S (153, computed) covering header+fixed part of Twrite (23) and Rread (11), computed after the options and again after negotiation, with no unsigned underflow. Right level: 'never exceeds' is a bound on a length expression visible in the code; concrete frame sizes are not needed.",
+         "Assumes a backend's ReadAt returns n <= len(p). Frame sizes for concrete directory contents are not computed: the limit handed to the encoder is (C01.r9 shows the encoder enforces it).",
+         "DESIGN.md section 4 C13"),
 }
 
 NOT_YET = "check not built yet (work in progress; DESIGN.md section 4 describes the planned static rules)"
